@@ -21,7 +21,9 @@ fn hot_first_touch(ctx: &mut Ctx) {
     // a partial that calls itself 25 levels deep (bounded by a counter): deep nesting in many threads at once
     let rec: Vec<Node> = vec![
         Node::Capture("_".into(), vec![Node::Incr("n".into())]),
-        Node::Cond { c: Cond::Bin(var("n"), CmpOp::Lt, lit_i(25)), mode: true, thn: vec![Node::Include(lit_s("rec"), vec![])], els: None, elsif: false },
+        // the deepest level does the slow part, so that the threads are deep at the same time
+        Node::Cond { c: Cond::Bin(var("n"), CmpOp::Lt, lit_i(25)), mode: true, thn: vec![Node::Include(lit_s("rec"), vec![])],
+                     els: Some(vec![Node::Capture("_".into(), vec![Node::For { x: "i".into(), rng: RangeE::Counted(lit_i(1), lit_i(3000)), limit: None, offset: None, rev: false, body: vec![out(var("i"))], els: None }])]), elsif: false },
         text("x"),
     ];
     let partials: Vec<PartialDef> = vec![("big".into(), Ok(big)), ("rec".into(), Ok(rec)), ("broken".into(), Err(format!("{}{{% if %}}", "{{ 1 }}".repeat(4000))))];
@@ -36,14 +38,15 @@ fn hot_first_touch(ctx: &mut Ctx) {
     let reference: Vec<Obs> = texts.iter().map(|t| render_text(&build_parser(&partials, Policy::Lazy), t, &data)).collect();
     let mut rng = crate::rng::Rng::new(ctx.seed ^ 0x407_C20);
     let mut worst = "hot".to_string();
-    for _ in 0..rounds {
+    for round in 0..rounds {
         let shared = Arc::new(build_parser(&partials, Policy::Lazy));
         let nthreads = 4 + rng.below(13);
         let barrier = Arc::new(Barrier::new(nthreads));
         let (tx, rx) = mpsc::channel::<(usize, String)>();
         for th in 0..nthreads {
             let (shared, barrier, texts, data, tx) = (shared.clone(), barrier.clone(), texts.clone(), data.clone(), tx.clone());
-            let ti = th % texts.len();
+            // every other round all threads go down the recursive partial together
+            let ti = if round % 2 == 1 { texts.len() - 1 } else { th % texts.len() };
             std::thread::spawn(move || {
                 barrier.wait();
                 for _ in 0..3 {
